@@ -117,19 +117,22 @@ FairSpec == Spec /\ WF_vars(Next)
 Quiet == flight = {}
 
 \* ---------------------------------------------------------------- C02
-DeliveredOnlyAtAddressee ==
+\* The history variables (delivered, socknotes, errs, created, arrived, dropped) only grow and every behaviour reaches
+\* Quiet (Decreases), so a history predicate violated anywhere is violated at the behaviour's Quiet state: the
+\* predicates below are evaluated there (QuietOnly), which keeps TLC's cost per state low.
+DeliveredOnlyAtAddressee == Quiet =>
   \A d \in delivered : d.node = d.p.dst /\ d.svc = d.p.dstsvc /\ d.svc \in Bound[d.node]
 
-TrueSource ==
+TrueSource == Quiet =>
   \A d \in delivered :
     IF d.p.kind = "data"
     THEN \E s \in sent : s.id = d.p.id /\ s.src = d.p.src /\ s.srcsvc = d.p.srcsvc /\ s.dst = d.node /\ s.dstsvc = d.svc
     ELSE /\ d.p.kind = "pong" /\ d.p.srcsvc = "ping"
          /\ \E s \in sent : s.id = d.p.id /\ s.dstsvc = "ping" /\ s.dst = d.p.src /\ s.src = d.node /\ s.srcsvc = d.svc
 
-AtMostOnce == \A d1, d2 \in delivered : Key(d1.p) = Key(d2.p) => d1 = d2
+AtMostOnce == Quiet => \A d1, d2 \in delivered : Key(d1.p) = Key(d2.p) => d1 = d2
 
-Intact == \A d \in delivered : d.p.kind = "data" => \E s \in sent : s.id = d.p.id /\ s.pay = d.p.pay
+Intact == Quiet => \A d \in delivered : d.p.kind = "data" => \E s \in sent : s.id = d.p.id /\ s.pay = d.p.pay
 
 \* a datagram to a bound service over a table path within the budget is delivered (at quiescence)
 DeliveredWhenRouted ==
@@ -160,7 +163,7 @@ ExpiredNotices(s) == {c \in created : Key(c.about) = Key(s) /\ c.problem = Probl
 
 \* reach iff distance <= hops; otherwise exactly one expiry notice from the node where the budget ran out;
 \* a missing table entry drops the packet without any notice (error at the origin only)
-ReachIff ==
+ReachIff == Quiet =>
   \A s \in sent :
     LET f == Fate(table, s.src, s.dst, s.ttl0) IN
     /\ (Key(s) \in arrived) => f.kind = "arrive"                                       \* only if (always)
@@ -177,9 +180,9 @@ ReachIffDist ==
     LET d == PathDist(table, s.src, s.dst, Cardinality(Node)) IN
     d # Inf => ((Key(s) \in arrived) <=> d <= s.ttl0)
 
-NoNoticeAboutNotice == \A c \in created : ~IsNotice(c.about) /\ c.about.kind \in {"data", "pong"}
+NoNoticeAboutNotice == Quiet => \A c \in created : ~IsNotice(c.about) /\ c.about.kind \in {"data", "pong"}
 
-AtMostOneNotice == \A c1, c2 \in created : Key(c1.about) = Key(c2.about) => c1 = c2
+AtMostOneNotice == Quiet => \A c1, c2 \in created : Key(c1.about) = Key(c2.about) => c1 = c2
 
 \* the dynamic model agrees with the closed-form Ping operator used as the oracle for the real Netceptor.Ping
 PingConsistent ==
@@ -198,7 +201,7 @@ TracerouteOK == Quiet =>
   \A s \in SrcSet, d \in DstSet \cap Node : TracerouteIsPath(table, s, d, DefTTL, DefTTL, Cardinality(Node))
 
 \* ---------------------------------------------------------------- C16
-NoticeToSenderOnly ==
+NoticeToSenderOnly == Quiet =>
   \A x \in socknotes :
     /\ x.node = x.note.from /\ x.sock = x.note.fromsvc /\ x.sock \in Bound[x.node]
     /\ \E c \in created : /\ NoticeKind(c.about.kind) = x.key[2] /\ c.about.id = x.key[1]
@@ -218,7 +221,7 @@ UnknownServiceReported ==
                    = {[node |-> s.src, sock |-> s.srcsvc]}
 
 \* nothing is ever delivered to a listener for a packet that also produced a notice
-NeverBoth ==
+NeverBoth == Quiet =>
   \A c \in created : ~\E d \in delivered : Key(d.p) = Key(c.about)
 
 TypeOK ==
